@@ -37,6 +37,8 @@
 // fine: it is threaded through the call), and elements are only written through the pointer
 // receiver or a local variable.  For []byte the second part's reviewed-by-hand assumption
 // (notes: "aliasing") continues to apply; the third part only adds element reads/writes.
+// (The FOURTH part, code_part4.go, admits slice PARAMETERS as values with out parameters, under
+// the documented no-overlap assumption; topics of the third part are not affected.)
 package main
 
 import (
@@ -215,6 +217,15 @@ func (c *codegen) checkElemWrite(root *ast.Ident, at ast.Node) {
 		c.checkRecvMutation(root, at)
 		return
 	}
+	if c.phase4 {
+		// fourth part: the parameter becomes an out parameter (the written slice is part of the result)
+		for _, p := range c.cur.sig.params {
+			if p.name == root.Name && (p.typ.kind == kGSlice || p.typ.kind == kBytes) {
+				c.noteOutParam(root.Name, true, at)
+				return
+			}
+		}
+	}
 	c.fail(at, "element assignment through the parameter %s (the caller's array is written)", root.Name)
 }
 
@@ -289,6 +300,9 @@ func (c *codegen) checkRangeTarget(v *varInfo, p []string, at ast.Node) {
 // checkSig3: slices of the third part may not cross a function boundary by value.
 func (c *codegen) checkSig3(fd *ast.FuncDecl, sig *fnSig) {
 	for _, p := range sig.params {
+		if c.phase4 && p.typ.kind == kGSlice {
+			continue // fourth part: a slice parameter is a value; written ones are out parameters (code_part4.go)
+		}
 		if c.containsGSlice(p.typ, fd) {
 			c.fail(fd, "parameter %s of type %s (a slice value of the third part may not be passed: aliasing)", p.name, p.typ)
 		}
